@@ -1,0 +1,12 @@
+//go:build verif
+
+package config
+
+import "sort"
+
+// verifOrderIntegrations puts integrations collected from a map (random
+// iteration order) into a canonical order, so that a simulated run is a
+// function of its seed. Simulation builds only.
+func verifOrderIntegrations(igs []Integration) {
+	sort.SliceStable(igs, func(i, j int) bool { return igs[i].Name < igs[j].Name })
+}
